@@ -82,6 +82,27 @@ func gobWords(gc gobCase) []string {
 				ws = append(ws, string([]byte{byte(i), byte(j)}))
 			}
 		}
+	case "wordcount-power", "wordcount-power-minus", "wordcount-power-plus":
+		// all words of length L over an s-letter alphabet (Param = 100*s + L): s^L words in an automaton of L+1 nodes;
+		// -minus drops the last word, -plus adds the empty word
+		sz, L := gc.Param/100, gc.Param%100
+		var rec func(cur []byte)
+		rec = func(cur []byte) {
+			if len(cur) == L {
+				ws = append(ws, string(cur))
+				return
+			}
+			for a := 0; a < sz; a++ {
+				rec(append(cur, byte('a'+a)))
+			}
+		}
+		rec(nil)
+		if gc.Family == "wordcount-power-minus" {
+			ws = ws[:len(ws)-1]
+		}
+		if gc.Family == "wordcount-power-plus" {
+			ws = append(ws, "")
+		}
 	case "wordcount-exact": // exactly Param words: the numbers 0..Param-1 as three big-endian bytes
 		for i := 0; i < gc.Param; i++ {
 			ws = append(ws, string([]byte{byte(i >> 16), byte(i >> 8), byte(i)}))
@@ -188,6 +209,27 @@ func evalGob(gc gobCase) *Failure {
 	}
 	if f := decodeInto(t1, "direct"); f != nil {
 		return f
+	}
+	// the decoded value owns its data: decode from a scratch copy of the bytes, overwrite the scratch buffer
+	// (as a caller reading record after record into one buffer does), and check the value again
+	{
+		scratch := append([]byte{}, enc...)
+		t1b := new(dawg.Dawg)
+		if msg, p := try(func() { err = t1b.GobDecode(scratch) }); p || err != nil {
+			return mk("direct/decode-failed"+sfx, fmt.Sprint(msg, err))
+		}
+		for i := range scratch {
+			scratch[i] = 0xAA
+		}
+		if f := decodeInto(t1b, "direct-then-input-overwritten"); f != nil {
+			return f
+		}
+		for i := range scratch {
+			scratch[i] = 0
+		}
+		if f := decodeInto(t1b, "direct-then-input-overwritten"); f != nil {
+			return f
+		}
 	}
 	// direct, into a non-empty receiver: must replace it
 	for ri, rw := range [][]string{{"other", "words", "wordsworth"}, {"", "q"}, {"", "a", "ab", "b"}, {"x", "xy", "xyz", "z"}} {
@@ -301,7 +343,7 @@ func nonMembers(words []string) []string {
 
 func runC14(c *Ctx) {
 	c.Level = "exploration"
-	c.Rule = "every subset of the 15 words of length <=3 over {a,b} and of the 13 words of length <=2 over {0x00,'m',0xff}, plus boundary families: root branching b for every b in [0,256] (ascending, descending, under a prefix, two levels for b<=40), chains with node counts 2..300, id-discarding builds, word counts across 127/128, 255/256, 65535/65536; each encoded with GobEncode and through encoding/gob, decoded into a fresh and into a non-empty receiver; decoded automaton compared on language, ranks, NumberOfWords, node count, a battery of searches, and byte-identical re-encoding; non-trivial = case with >= 2 words"
+	c.Rule = "every subset of the 15 words of length <=3 over {a,b} and of the 13 words of length <=2 over {0x00,'m',0xff}, plus boundary families: root branching b for every b in [0,256] (ascending, descending, under a prefix, two levels for b<=40), chains with node counts 2..300, id-discarding builds, word counts across 127/128, 255/256, 65535/65536 (the latter in quick as all words of a fixed length over a small alphabet, minus one, plus one); the decoded value re-checked after the caller overwrites the bytes it was decoded from; each encoded with GobEncode and through encoding/gob, decoded into a fresh and into a non-empty receiver; decoded automaton compared on language, ranks, NumberOfWords, node count, a battery of searches, and byte-identical re-encoding; non-trivial = case with >= 2 words"
 	var cases []gobCase
 	u3 := wordsUpTo([]byte("ab"), 3)
 	stride := uint64(2)
@@ -334,6 +376,12 @@ func runC14(c *Ctx) {
 			continue
 		}
 		cases = append(cases, gobCase{Family: "wordcount", Param: n})
+	}
+	// word counts at powers of two (and one off) in tiny automata: 2^7, 2^8, 2^14, 2^15, 2^16, 2^17, 16^4, 4^8
+	for _, pr := range []int{207, 208, 214, 215, 216, 217, 1604, 408, 1602, 404} {
+		for _, fam := range []string{"wordcount-power", "wordcount-power-minus", "wordcount-power-plus"} {
+			cases = append(cases, gobCase{Family: fam, Param: pr})
+		}
 	}
 	for _, n := range []int{126, 127, 128, 129, 254, 255, 256, 257, 65535, 65536, 65537} {
 		if n > 60000 && !c.Thorough() {
@@ -373,6 +421,9 @@ func runC14(c *Ctx) {
 }
 
 func replayC14(kind string, raw json.RawMessage) *Failure {
+	if kind != "dawg-gob" {
+		return unsupportedKind(kind)
+	}
 	var gc gobCase
 	if err := json.Unmarshal(raw, &gc); err != nil {
 		return &Failure{Class: "replay/bad-file", What: err.Error()}
